@@ -61,7 +61,7 @@ def _arr(v, shape, what, key, case):
 
 def _cmp(got, ref, what, key, case, rtol=1e-9):
     scale = np.maximum(np.abs(ref), np.abs(got))
-    bad = np.abs(got - ref) > rtol * scale + 1e-12
+    bad = np.abs(got - ref) > rtol * scale + 1e-12 * (1 + (float(np.abs(ref).max()) if np.size(ref) else 0.0))
     if bad.any() or not np.isfinite(got).all():
         i = np.argwhere(bad | ~np.isfinite(got))[0]
         raise PropertyViolation(key, "%s differs at %s: model %.15g, reference %.15g" % (
